@@ -96,3 +96,28 @@ func TestC07SetCopyOfListWithRemovedElement(t *testing.T) {
 		}
 	}
 }
+
+// C07.R14 / C06: an attribute literally named like an alias key of the request ("#s") is an attribute of its own: it is
+// neither the attribute the alias stands for nor touched by an update that does not target it.
+func TestC07AttributeNamedLikeAnAlias(t *testing.T) {
+	li := interpreter.Language{}
+	for i := 0; i < 30; i++ {
+		it := map[string]*types.Item{"#s": {S: str1("x")}, "status": {S: str1("open")}}
+		m, err := li.Match(interpreter.MatchInput{TableName: "t", Expression: "#s = :v", ExpressionType: interpreter.ExpressionTypeConditional, Item: it,
+			Attributes: map[string]*types.Item{":v": {S: str1("open")}}, Aliases: map[string]string{"#s": "status"}})
+		if err != nil || !m {
+			t.Fatalf("#s (alias of status) = :v: matched=%v err=%v", m, err)
+		}
+		err = li.Update(interpreter.UpdateInput{TableName: "t", Expression: "SET extra1 = :v", Item: it,
+			Attributes: map[string]*types.Item{":v": {S: str1("1")}}, Aliases: map[string]string{"#s": "status"}})
+		if err != nil || it["#s"] == nil || *it["#s"].S != "x" || *it["status"].S != "open" {
+			t.Fatalf("an update that targets `extra1` changed the item: %v (err %v)", it, err)
+		}
+		// the literal attribute is reachable through a placeholder of its own
+		m, err = li.Match(interpreter.MatchInput{TableName: "t", Expression: "#lit = :x", ExpressionType: interpreter.ExpressionTypeConditional, Item: it,
+			Attributes: map[string]*types.Item{":x": {S: str1("x")}}, Aliases: map[string]string{"#lit": "#s"}})
+		if err != nil || !m {
+			t.Fatalf("#lit (alias of the attribute named #s) = :x: matched=%v err=%v", m, err)
+		}
+	}
+}
